@@ -24,6 +24,9 @@ inductive ArgKind where
   | d (o c : Char)
   | v
   | vd (o c : Char)
+  /-- `LatexStandardArgumentParser('{', allow_pre_space=False)`: an expression that accepts neither leading
+      whitespace nor leading comments (`allow_pre_comments` follows `allow_pre_space`) -/
+  | m0
 deriving Repr, BEq, DecidableEq, Inhabited
 
 inductive Delta where
@@ -210,6 +213,7 @@ def argParser : ArgKind → Parser
   | .d o c => .group (.pair [o] [c]) true true
   | .v => .verbatim none
   | .vd o c => .verbatim (some (o, c))
+  | .m0 => .expression false
 
 structure Env where
   tol : Bool
